@@ -1,6 +1,6 @@
 CONSTANTS
-  MaxServices = 2  MaxChars = 1  MaxTotalChars = 1  MaxIncludes = 1
-  Gaps = {2}  GapOpts = {TRUE}
+  MaxServices = 2  MaxChars = 2  MaxTotalChars = 2  MaxIncludes = 1
+  Gaps = {2}  GapOpts = {TRUE, FALSE}
   VKinds = {"bound"}  EncOpts = {"inherit"}  CharIds = {1}
   ShellKinds <- ShellKindsSmall
   Sizes = {1}  Cccds = {"none", "notify"}
